@@ -50,10 +50,13 @@ def parse_ops(path):
         elif f[0] == 'RESTART':
             restart = True; i += 1
         elif f[0] == 'BLOCK':
-            b = dict(dt=int(f[1]), votes=[], txs=[], restart=restart); restart = False
-            nv, nt = int(f[2]), int(f[3]); i += 1
+            b = dict(dt=int(f[1]), votes=[], txs=[], evid=[], restart=restart); restart = False
+            nv, nt = int(f[2]), int(f[3]); ne = int(f[4]) if len(f) > 4 else 0; i += 1
             for _ in range(nv):
                 v = lines[i].split(); b['votes'].append((int(v[1]), int(v[2]), v[3] == '1')); i += 1
+            for _ in range(ne):
+                e = lines[i].split(); assert e[0] == 'EVID', lines[i]
+                b['evid'].append((int(e[1]), int(e[2]), int(e[3]))); i += 1
             for _ in range(nt):
                 t = lines[i].split(); i += 1
                 tx = dict(signer=int(t[1]), msgs=[])
@@ -481,6 +484,14 @@ def oracle_C16(hi, ops, obs):
         if last_ok is not None and not b['halt'] and 'par' in b:
             if [str(int(x)) for x in last_ok] != b['par']:
                 out.append(Viol(hi, b['h'], 'params-not-applied', f"sent {last_ok} stored {b['par']}"))
+        # "no other effect": a block whose only successful messages are parameter updates (no missed votes, no evidence)
+        # mints and burns nothing and moves nothing out of the two pools
+        prev = obs[j-1]
+        okl = [lf for (_, _, lf) in successful_leaves(ob, b)]
+        if okl and all(lf.kind in ('PARAMS', 'OTHER') for lf in okl) and any(lf.kind == 'PARAMS' for lf in okl) \
+                and not b['halt'] and 'pool' in b and prev.get('pool') and not any(v[2] for v in ob['votes']) and not ob.get('evid'):
+            if b['pool'][2] != prev['pool'][2] or b['pool'][0] + b['pool'][1] != prev['pool'][0] + prev['pool'][1]:
+                out.append(Viol(hi, b['h'], 'params-moved-funds', f"pools/supply {prev['pool']} -> {b['pool']}"))
         if out: break
     return out
 
